@@ -50,6 +50,31 @@ def sound_model(res, ast, m, cap):
                         "problem": f"in-bounds integer point {dict(zip([c for c, _ in cols], pt))} satisfies the asserted polyhedron but its leaf part makes the model false"}
     return None
 
+def sound_sampled(res, ast, m, rng, n_env):
+    """soundness when the column box is too large to enumerate: leaf assignments (corners and random values) that make the
+    model FALSE are extended by every 0/1 assignment of the auxiliary columns; none of the extensions may satisfy all rows"""
+    cols, rows = poly_obs(m, True)
+    leaf_ids = {l.id for l in leaves_of(m)}
+    aux = [j for j, (c, _) in enumerate(cols) if c not in leaf_ids]
+    if len(aux) > 10 or any(cols[j][1] != (0, 1) for j in aux):
+        return None
+    A = np.array([r[1:] for r in rows], dtype=object).reshape(len(rows), len(cols)); bb = [r[0] for r in rows]
+    lv = leaves_of(m)
+    for _ in range(n_env):
+        env = random_env(lv, rng, corners=0.6)
+        if ref_eval(m, env) == 1:
+            continue
+        base = [env.get(c, 0) for c, _ in cols]
+        for bits in itertools.product([0, 1], repeat=len(aux)):
+            res.evaluations += 1
+            x = list(base)
+            for j, v in zip(aux, bits):
+                x[j] = v
+            if all(sum(int(a) * int(v) for a, v in zip(row, x)) >= b0 for row, b0 in zip(A.tolist(), bb)):
+                return {"op": "sound", "model": ast_json(ast), "point": {c: int(v) for (c, _), v in zip(cols, x)},
+                        "problem": f"in-bounds integer point {dict(zip([c for c, _ in cols], x))} satisfies the asserted polyhedron but its leaf part makes the model false"}
+    return None
+
 def complete_model(res, ast, m, rng, n_env, cap):
     cols, rows = poly_obs(m, True)
     lv = leaves_of(m)
@@ -174,6 +199,9 @@ def run(res, tier, seed):
     for ast, m in gen_valid(rng, 60 if tier == "quick" else 600, res, depth_max=3, want=lambda m: plain(m), big=0.6, huge=0.7, int_leaves=0.7):
         res.count("wide_stream")
         bad = complete_model(res, ast, m, rng, 12 if tier == "quick" else 30, 0)
+        if not bad and solver_safe(m):
+            bad = sound_sampled(res, ast, m, rng, 12 if tier == "quick" else 30)
+            res.count("wide_stream_sampled_soundness")
         if bad:
             res.violation("oracle", f"{bad['problem']} on {m!r}", bad)
         cols, rows = poly_obs(m, True)
@@ -209,6 +237,8 @@ def run(res, tier, seed):
         (ast,) = cases[i][1]
         m = build(ast)
         bad = complete_model(res, ast, m, rng, 3000, 20000) or (solver_safe(m) and sound_model(res, ast, m, 200000))
+        if (not bad or bad == "skipped") and solver_safe(m):
+            bad = sound_sampled(res, ast, m, rng, 3000)
         if bad and bad != "skipped":
             res.violation("oracle", f"{bad['problem']} on {m!r}", bad)
         res.violation("corr", f"model to_ge_polyhedron(True) differs from implementation on {m!r}: implementation rows {poly_obs(m, True)[1]}",
